@@ -132,7 +132,8 @@ S2 == <<Stream(Marks_(Cpus_(App_(BaseMeta(101, 1001, 1, {"O", "V"}), 1), <<<<0, 
           <<Ex(0, 1000), Jv("V", "VYc", <<1, 5>>, 1010), Jv("V", "VYc", <<2, 6>>, 1012), Ev("V", "VTc", <<1, 1>>, 1020),
             Ev("V", "VTx", <<1, 0>>, 1030), Ev("V", "VSh", <<>>, 1040), Ev("V", "VSf", <<>>, 1050),
             Ev("V", "VTe", <<1, 0>>, 1060), Ev("O", "OM=", <<5, 2>>, 1070), O("OHe", 1080)>>),
-        Stream(BaseMeta(102, 1001, 1, {"O"}),
+        \* (written by another libovni version than thread 1: allowed, the emulator only warns)
+        Stream(With(BaseMeta(102, 1001, 1, {"O"}), "ovni.lib.version", Str("1.10.0")),
           <<Ex(1, 1005), O("OF[", 1015), O("OF]", 1025), O("OHe", 1035)>>)>>
 
 \* S3: two processes, Nanos6: a jumbo event followed by normal events WITH
